@@ -8,6 +8,9 @@
 (* with the requirement, clause by clause, into `flags`:                   *)
 (*   1 parse    Encoding.parse(header) = encodings in preference order     *)
 (*   2 encoder  get_encoder(parsed...).encoding in EncoderSet / Unsupported  *)
+(*              (or, zero-weighted ranges read as "not acceptable", in     *)
+(*              EncoderSetZ / Unsupported - differs only when no positive   *)
+(*              range is supported)                                        *)
 (*   3 decoder  get_decoder(parsed[0]) in DecoderSet / Unsupported         *)
 (*   4 respond  Generic.respond payload encoding like 2                    *)
 (*   5 receive  Generic.receive raises Unsupported iff DecoderSet = {}     *)
@@ -45,14 +48,15 @@ EncOk(S, o) == IF S = {} THEN o = Unsupported ELSE \E e \in S : Encoders[e] = o
 EncImpl(I, o) == o = (IF I = 0 THEN Unsupported ELSE Encoders[I])
 Judge == /\ l = Len(Tr.hdr) + 1 /\ N > 0
          /\ LET S == EncoderSet(Mine)            \* (each evaluated once per header)
+                Z == IF NPos = N THEN S ELSE EncoderSetZ(hdr)
                 I == ImplEncoder(Mine)
                 D == DecoderSet(Mine[1])
             IN flags' = <<
               B(Len(Tr.parsed) = N /\ \A p \in 1..N : InEnc(Tr.parsed[p]) = Mine[p]),
-              B(EncOk(S, InEnc(Tr.enc))),
+              B(EncOk(S, InEnc(Tr.enc)) \/ EncOk(Z, InEnc(Tr.enc))),
               B(Tr.dec = NotObserved \/ ~Concrete(Mine[1]) \/
                   (IF D = {} THEN Tr.dec = DecUnsupported ELSE Tr.dec \in D)),
-              B(Tr.respond.t = "-" \/ EncOk(S, InEnc(Tr.respond))),
+              B(Tr.respond.t = "-" \/ EncOk(S, InEnc(Tr.respond)) \/ EncOk(Z, InEnc(Tr.respond))),
               B(Tr.receive = NotObserved \/ ~Concrete(Mine[1]) \/
                   ((D = {}) <=> (Tr.receive = DecUnsupported))),
               B(EncImpl(I, InEnc(Tr.enc))),
@@ -64,10 +68,11 @@ TSpec == TInit /\ [][TNext]_tvars
 \* ---- served requests (pure input -> output observations)
 InHeader(h) == [i \in 1..Len(h) |-> InRange(h[i])]
 ReplyOk(r, strict) ==        \* strict: also without an Accept header (as-is default: the encoding of the request)
-    LET ps == Parsed(InHeader(r.accept))
-        S == ReplySet(InEnc(r.ct), ps)
+    LET h == InHeader(r.accept)
+        S == ReplySet(InEnc(r.ct), Parsed(h))
+        Z == IF Positive(h) = h THEN S ELSE ReplySetZ(InEnc(r.ct), h)     \* q=0 read as "not acceptable"
         o == InEnc(r.reply)
-    IN (~strict /\ Len(r.accept) = 0) \/ (IF S = {} THEN o = Unsupported ELSE \E e \in S : Encoders[e] = o)
+    IN (~strict /\ Len(r.accept) = 0) \/ EncOk(S, o) \/ EncOk(Z, o)
 ReceiveOk(r) ==              \* 0 = Unsupported, 1 = decoded, 2 = a decoder was found but could not read the payload
     \/ r.receive = NotObserved
     \/ /\ r.receive \in {0, 1, 2}
